@@ -2,8 +2,20 @@
 
 package server
 
-import "github.com/relab/hotstuff/internal/proto/hotstuffpb"
+import (
+	"github.com/relab/hotstuff/internal/proto/clientpb"
+	"github.com/relab/hotstuff/internal/proto/hotstuffpb"
+)
 
 // VerifService exposes the unexported Consensus service implementation (the gorums handlers
 // Propose, Vote, NewView, Timeout, RequestBlock) of srv to the verification harness.
 func VerifService(srv *Server) hotstuffpb.ConsensusServer { return &serviceImpl{srv} }
+
+// VerifAwaiting reports whether a client is waiting for the outcome of the command id, and how
+// many clients are waiting in total.
+func (srv *ClientIO) VerifAwaiting(id clientpb.MessageID) (bool, int) {
+	srv.mut.Lock()
+	defer srv.mut.Unlock()
+	_, ok := srv.awaitingCmds[id]
+	return ok, len(srv.awaitingCmds)
+}
